@@ -510,7 +510,7 @@ def compress(tree, mand_labels, rng, layout='none'):
             if indeg[n] >= 2:
                 mark = rng.random() < (0.55 if n[1] else 0.15)
             else:
-                mark = rng.random() < 0.03
+                mark = rng.random() < 0.08      # a mark nobody refers to is legal and still takes a number
         if mark:
             steps.append('Z')
             saved[n] = len(saved)
@@ -1006,7 +1006,9 @@ def decode_case(rng, conventional=True, twin=False):
     # optionally a second theorem over OTHER variables that carries byte-for-byte the same compressed proof text: its numbers 1..m
     # denote ITS mandatory hypotheses
     tv2 = None
-    if twin and m >= 1:
+    if twin == 'same_vars':
+        tv2 = list(tv)
+    elif twin and m >= 1:
         for _ in range(10):
             cand = rng.sample(names, m)
             if [flab[v] for v in order if v in cand] != mand:
@@ -1061,10 +1063,18 @@ def decode_case(rng, conventional=True, twin=False):
         ren = dict(zip(tv, tv2))
         lem2 = Assertion('twin-' + label, t_subst(t, ren), kind='p', shape=lem.shape)
         lem2.proof = lem.proof
+        listed2, steps2 = listed, steps
+        if twin == 'same_vars':
+            # same mandatory variables, but its own label list and step list: the two tables share a prefix and nothing else
+            listed2 = rng.sample(pool, min(rng.choice([1, 2, 3, 5, 8]), len(pool)))
+            steps2 = [rng.randint(1, max(1, len(mand) + len(listed2))) for _ in range(rng.choice([1, 3, 8, 20]))]
+            if rng.random() < 0.5 and steps2:
+                steps2.insert(rng.randrange(len(steps2)) + 1, 'Z')
+            lem2.proof = proof_text(rng, listed2, steps2, 'canonical')
         first_twin = rng.random() < 0.5
         lems = (assertion_stmts(lem2) + lems) if first_twin else (lems + assertion_stmts(lem2))
         mand2 = [flab[v] for v in order if v in tv2]
-        out['twin'] = dict(out, target='twin-' + label, mand=mand2, f_sorted=mand2 == sorted(mand2), twin_of=label)
+        out['twin'] = dict(out, target='twin-' + label, mand=mand2, listed=listed2, steps=steps2, f_sorted=mand2 == sorted(mand2), twin_of=label)
     out['text'] = render(stmts + lems, rng, style)
     if 'twin' in out:
         out['twin']['text'] = out['text']
